@@ -5,6 +5,7 @@
 package c02
 
 import (
+	"errors"
 	"fmt"
 	"net/http"
 	"net/http/httptest"
@@ -108,16 +109,17 @@ func (m *scriptMeter) Record(int, time.Duration) {}
 func (m *scriptMeter) IsReady() bool             { return m.ready }
 
 type sys struct {
-	meters    map[string]*scriptMeter // by server identity (rebalancer variants)
-	upserting string
-	v         variant
-	rr        *roundrobin.RoundRobin
-	rb        *roundrobin.Rebalancer
-	ref       ref
-	calls     int
-	seen      string // URL the handler observed, as a string, before any rewriting
-	rewrite   bool
-	lastCode  int
+	meters     map[string]*scriptMeter // by server identity (rebalancer variants)
+	upserting  string
+	meterFails bool // the meter factory refuses to build a meter (RebalancerMeter option)
+	v          variant
+	rr         *roundrobin.RoundRobin
+	rb         *roundrobin.Rebalancer
+	ref        ref
+	calls      int
+	seen       string // URL the handler observed, as a string, before any rewriting
+	rewrite    bool
+	lastCode   int
 }
 
 func (s *sys) front() interface {
@@ -156,6 +158,9 @@ func newSys(v variant) *sys {
 		}
 		s.meters = map[string]*scriptMeter{}
 		opts := []roundrobin.RebalancerOption{roundrobin.RebalancerBackoff(time.Second), roundrobin.RebalancerMeter(func() (roundrobin.Meter, error) {
+			if s.meterFails {
+				return nil, errors.New("meter factory failed")
+			}
 			m := &scriptMeter{ready: true}
 			if s.upserting != "" {
 				s.meters[s.upserting] = m
@@ -221,6 +226,11 @@ func alphabet(v variant, tier string) ([]string, []opDesc) {
 		}
 		names = append(names, "Advance(2s)")
 		descs = append(descs, opDesc{7, 0, 0})
+		// an add that fails half-way (the meter factory refuses): nothing may change
+		for _, u := range []int{1, 3} {
+			names = append(names, fmt.Sprintf("UpsertWhileMeterFactoryFails(u%d)", u))
+			descs = append(descs, opDesc{8, u, -1})
+		}
 	}
 	for u := 0; u < nurl; u++ {
 		names = append(names, fmt.Sprintf("Upsert(u%d)", u))
@@ -268,6 +278,17 @@ func model(v variant, tier string, depth int) *lib.Model[*sys] {
 		case 7:
 			clock.Advance(2 * time.Second)
 			return ""
+		case 8:
+			known := s.ref.find(identity(u)) >= 0
+			s.meterFails = true
+			s.upserting = identity(u)
+			err := s.front().UpsertServer(u)
+			s.upserting = ""
+			s.meterFails = false
+			if err == nil {
+				s.ref.upsert(u, -1) // a re-add of a known server needs no new meter and succeeds
+			}
+			return fmt.Sprintf("%v/known=%v", err, known)
 		case 2:
 			var opts []roundrobin.ServerOption
 			if d.weight >= 0 {
@@ -480,6 +501,11 @@ func checkLast(s *sys, m *lib.Model[*sys], descs []opDesc, hist []int, obs []str
 				rep.Violate(prop+":servable-pool-refused:"+vk, fmt.Sprintf("request on servable pool %v was not forwarded (%s)", s.ref.members, o), what())
 				return
 			}
+		case 8:
+			if strings.HasSuffix(o, "known=false") && strings.HasPrefix(o, "<nil>") {
+				rep.Violate(prop+":failed-add-reported-success:"+vk, "UpsertServer succeeded although the meter for the new server could not be built", what())
+			}
+			rep.Count("failing_adds")
 		case 3:
 			if strings.HasSuffix(o, "known=false") && strings.HasPrefix(o, "<nil>") {
 				rep.Violate(prop+":remove-unknown-succeeded:"+vk, "RemoveServer of a server that is not in the pool returned no error", what())
